@@ -191,7 +191,7 @@ def directed_hook_failures(ctx):
     rng = ctx.rng
     S = G.S
     P = lambda nm, t, **kw: dict(name=nm, type=t, **kw)   # noqa: E731
-    for hook in (('fail',), ('other',)):
+    for hook in (('fail',), ('other',), ('fail', 'bare'), ('other', 'bare')):
         for kind in ('plain', 'userstring', 'str'):
             if kind == 'plain':
                 ps = [P('a', ('int',))]
